@@ -71,6 +71,7 @@ def behaviour_of(segment):
         a = {"a": e}
         for k in ("c", "p", "r", "res", "add", "del", "cust", "prov",
                   "margin", "timing", "in_parent", "for_child", "x", "lim",
+                  "again",
                   "nolim", "fam"):
             if k in ev:
                 a[k] = ev[k]
